@@ -722,6 +722,10 @@ impl<'r> Gen<'r> {
                     // `x = x` of an aggregate sends sway-ir's memcpyopt::copy_prop_reverse into an endless loop
                     // (cycle in its src->dst closure); not part of the fragment
                     if let Expr::Var(x) = &e { if *x == v.name { e = self.gen_value(&t); } }
+                    // Re-assigning an aggregate from another local (`a = b; … b = a;`) builds memcpy cycles on which
+                    // sway-ir's memcpyopt::copy_prop_reverse does not terminate (compiler hang, mostly release).
+                    // Aggregate re-assignments therefore always take their value from a real call.
+                    if !matches!(t, Ty::Int(_) | Ty::Bool) && !matches!(e, Expr::Opq(..)) { e = Expr::Opq(t.clone(), Box::new(e)); }
                     out.push(Stmt::Assign { var: v.name, path, e });
                     return;
                 }
